@@ -204,6 +204,7 @@ def lookup(ex, name):
             if r == z3.sat:
                 fm = s.full_model(st, [z3.Not(cb)])
                 s.violations.append(Violation('assert', what, fm if fm is not None else m[0], st, '' if fm is not None else 'model covers the relevant slice of the path condition only'))
+                s.violations[-1].query = list(st.pc) + [z3.Not(cb)]        # kept for the runner: a better conditioned model is looked for when this one does not reproduce natively
             elif r == z3.unknown: s.undecided.append((what, 'solver unknown'))
             else: s.stats['asserts_proved'] += 1
             s.add_pc(st, cb)        # continue under the assertion (as CBMC does after a checked assert)
